@@ -48,7 +48,12 @@ def run_history(c0, p0, events, curve='ed', rejected=None):
     node.add_account(pkh, counter=c0)
     node.add_account(other, counter=7)
     node.add_pending(other, 2)                    # somebody else's operations must not count
-    if p0:
+    if p0 >= 2:
+        # own / foreign / own: the account's pending operations are not adjacent in the mempool listing
+        node.add_pending(pkh, 1, where='applied')
+        node.add_pending(other, 1, where='applied')
+        node.add_pending(pkh, p0 - 1, where='unprocessed' if p0 % 2 else 'applied')
+    elif p0:
         node.add_pending(pkh, p0, where='unprocessed' if p0 % 2 else 'applied')
     if rejected:
         # operations of this very account that the mempool has refused (fees too low …): noise, they take no counter
